@@ -50,7 +50,11 @@ func bundleSweep(w *gen.World, c *refClosure, b *sourcebundle.Bundle, root strin
 		}
 	}
 	for _, rp := range b.RegistryPackages() {
-		for _, v := range b.RegistryPackageVersions(rp) {
+		// (the list is sorted by precedence; versions of equal precedence,
+		// differing in build metadata only, have no defined mutual order)
+		vl := b.RegistryPackageVersions(rp)
+		sort.SliceStable(vl, func(i, j int) bool { return vl[i].Same(vl[j]) && vl[i].String() < vl[j].String() })
+		for _, v := range vl {
 			sa, ok := b.RegistryPackageSourceAddr(rp, v)
 			dep := b.RegistryPackageVersionDeprecation(rp, v)
 			ds := "<nil>"
@@ -169,6 +173,50 @@ func c09Extras(r *fw.Rand, i int) []gen.NodeSpec {
 func c09Run(env *fw.Env, idx int) fw.Result {
 	r := env.Rand(idx)
 	w := gen.RandomWorld(r, gen.WorldOpts{MaxPkgs: 6, MaxReg: 3, MaxFinders: 2, MaxAdds: 4, Aliases: true, OddAddrs: true})
+	return c09RunWorld(env, r, w)
+}
+
+// c09Twins: one registry package whose versions differ only in build
+// metadata (2.0.0+linux / 2.0.0+darwin) and lead to different packages, each
+// requested exactly. Versions with different metadata are different versions
+// (they are different manifest keys); a bundle must keep them apart however
+// often it is re-opened.
+func c09Twins(env *fw.Env, idx int) fw.Result {
+	r := env.Rand(idx)
+	k := idx
+	pick := func(n int) int { v := k % n; k /= n; return v }
+	listing := pick(2)
+	deprecated := pick(3)
+	addOrder := pick(2)
+	sub := []string{"", "mod"}[pick(2)]
+	third := pick(2)
+	w := gen.World{Finders: 1}
+	for i := 0; i < 2; i++ {
+		files := map[string]string{gen.MarkerFile: fmt.Sprintf("content-%d\n", i), "main.tf": fmt.Sprintf("root %d", i), "mod/main.tf": "m", "mod/sub/main.tf": "s", "other/main.tf": "o", "other/data/x.txt": "x"}
+		w.Remotes = append(w.Remotes, gen.RemotePkg{Base: fmt.Sprintf("git::https://example.com/twin%d.git", i), Content: i, Files: files, Deps: map[string][]gen.Dep{}})
+	}
+	vs := []gen.RegVersion{{V: "2.0.0+linux", Source: gen.SrcRef{Pkg: 0, Sub: sub}}, {V: "2.0.0+darwin", Source: gen.SrcRef{Pkg: 1}}}
+	if deprecated > 0 {
+		vs[deprecated-1].Deprecated, vs[deprecated-1].Link = "use the other build", "https://example.com/why"
+	}
+	if listing == 1 {
+		vs[0], vs[1] = vs[1], vs[0]
+	}
+	if third == 1 {
+		vs = append(vs, gen.RegVersion{V: "2.0.0", Source: gen.SrcRef{Pkg: 0, Sub: "other"}})
+	}
+	w.Registry = []gen.RegistryPkg{{Addr: "example.com/ns/twins/sys", Versions: vs}}
+	w.Adds = []gen.Add{{Kind: "final", Reg: 0, Version: "2.0.0+linux"}, {Kind: "final", Reg: 0, Version: "2.0.0+darwin"}}
+	if addOrder == 1 {
+		w.Adds[0], w.Adds[1] = w.Adds[1], w.Adds[0]
+	}
+	if third == 1 {
+		w.Adds = append(w.Adds, gen.Add{Kind: "final", Reg: 0, Version: "2.0.0"})
+	}
+	return c09RunWorld(env, r, w)
+}
+
+func c09RunWorld(env *fw.Env, r *fw.Rand, w gen.World) fw.Result {
 	extrasByContent := map[int][]gen.NodeSpec{}
 	for i := range w.Remotes {
 		cid := w.Remotes[i].Content
@@ -323,6 +371,10 @@ func init() {
 			Name: "reopen-and-archive-round-trip",
 			N:    fw.Fixed(5000, 30000),
 			Run:  c09Run,
+		}, {
+			Name: "registry-versions-differing-only-in-build-metadata", Exhaustive: true,
+			N:   func(string) int { return 48 },
+			Run: c09Twins,
 		}},
 	})
 }
